@@ -184,26 +184,27 @@ def run_model(cases_path, out_path, shards=None):
     mr = os.path.join(VERIF, "model", "modelrun")
     procs = []
     base = cases_path + ".shard"
-    per = (n + shards - 1) // shards if n else 0
+    # round-robin sharding: the harnesses emit their cases grouped by schema / variant, contiguous blocks would be
+    # very unequal in cost
     for i in range(shards):
-        part = lines[i * per:(i + 1) * per]
+        part = lines[i::shards]
         if not part:
             continue
         inp, outp = "%s%d.in" % (base, i), "%s%d.out" % (base, i)
         with open(inp, "w") as f:
             f.write("\n".join(part) + "\n")
-        procs.append((subprocess.Popen(["bash", "-c", "ulimit -v 8000000; ulimit -s unlimited; exec timeout 1500 %s %s %s" % (mr, inp, outp)]), inp, outp, len(part)))
-    results = []
+        procs.append((subprocess.Popen(["bash", "-c", "ulimit -v 8000000; ulimit -s unlimited; exec timeout 3000 %s %s %s" % (mr, inp, outp)]), inp, outp, len(part), i))
+    results = [None] * n
     ok = True
-    for p, inp, outp, cnt in procs:
+    for p, inp, outp, cnt, i in procs:
         rc = p.wait()
         got = open(outp).read().split("\n") if os.path.exists(outp) else []
         if got and got[-1] == "":
             got.pop()
         if rc != 0 or len(got) != cnt:
             ok = False
-            got = got + ["MODEL-RUNNER-DIED"] * (cnt - len(got))
-        results += got
+            got = got[:cnt] + ["MODEL-RUNNER-DIED"] * (cnt - len(got))
+        results[i::shards] = got
         for f in (inp, outp):
             if os.path.exists(f):
                 os.remove(f)
